@@ -372,6 +372,28 @@ def reproducibility_case(ctx, rng, idx):
     ctx.count('generator_checks')
     s1 = repr(g.bit_generator.state)
     rb = call(g)
+    # a Generator is a seed: equal generators give equal results, whatever
+    # the process-wide generators hold and whatever was sampled in between
+    try:
+        _set_global(gstate + 5, own)
+        rc = call(np.random.default_rng(seed))
+        _foreign(rng)
+        call((seed + 7) % (2 ** 32 - 1))
+        _set_global(gstate + 99, own)
+        rd = call(np.random.default_rng(seed))
+    except Exception as e:      # noqa
+        ctx.violation_exc('sampling_raises', e,
+                          {'entry_point': name, 'seed': 'Generator'}, feats)
+        return
+    finally:
+        _set_global(None, False)
+    ctx.count('generator_reproducibility_pairs')
+    if not (_same(ra, rc) and _same(rc, rd)):
+        ctx.violation('same_seed_same_result',
+                      'generator_seed_irreproducible:' + name,
+                      {'first': _vals(ra)[:6], 'second': _vals(rc)[:6],
+                       'third': _vals(rd)[:6], 'seed': seed}, feats)
+        return
     if s1 == s0 or _same(ra, rb):
         ctx.violation('generator_is_advanced', 'generator_restarted:' + name,
                       {'state_changed': s1 != s0,
